@@ -192,3 +192,17 @@ def cross_cov_rank(x, y):
     xc = x - x.mean(axis=1, keepdims=True)
     yc = y - y.mean(axis=1, keepdims=True)
     return int(np.linalg.matrix_rank(yc @ xc.T / x.shape[1]))
+
+
+def cross_cov_rank_safe(x, y, rel=1e-9):
+    """number of singular values of the cross covariance that are clearly
+    non-zero (> rel * largest).  Values between rounding level and rel are a
+    numerical knife-edge: a rank test may go either way there, so callers use
+    this to decide when a refusal is *allowed* (rank_safe < 2) as opposed to
+    *forbidden* (rank_safe >= 2)."""
+    xc = x - x.mean(axis=1, keepdims=True)
+    yc = y - y.mean(axis=1, keepdims=True)
+    d = np.linalg.svd(yc @ xc.T / x.shape[1], compute_uv=False)
+    if d[0] == 0.0:
+        return 0
+    return int(np.count_nonzero(d > rel * d[0]))
